@@ -29,6 +29,12 @@ pub enum Leaf {
     Z,
     /// `Val<host::K>`, registered as `K` (copy)
     K,
+    /// the string views: registered built-in types whose Rust types
+    /// (`StringLines`, `StringBytes`, `StringChars`) cannot be named outside
+    /// roto but are the return types of public `RotoString` methods
+    Lines,
+    Bytes,
+    Chars,
 }
 
 pub const LEAVES: [Leaf; 20] = [
@@ -80,6 +86,9 @@ impl Leaf {
             Leaf::Tr => "Tr",
             Leaf::Z => "Z",
             Leaf::K => "K",
+            Leaf::Lines => "StringLines",
+            Leaf::Bytes => "StringBytes",
+            Leaf::Chars => "StringChars",
         }
     }
     pub fn rust(self) -> &'static str {
@@ -91,6 +100,9 @@ impl Leaf {
             Leaf::Tr => "roto::Val<host::Tr>",
             Leaf::Z => "roto::Val<host::Z>",
             Leaf::K => "roto::Val<host::K>",
+            Leaf::Lines => "<return type of roto::RotoString::lines>",
+            Leaf::Bytes => "<return type of roto::RotoString::bytes>",
+            Leaf::Chars => "<return type of roto::RotoString::chars>",
             l => l.roto(),
         }
     }
@@ -116,6 +128,9 @@ impl Leaf {
             Leaf::Tr => "mk(7)",
             Leaf::Z => "mkz()",
             Leaf::K => "mkk(7)",
+            Leaf::Lines => "\"a\".lines()",
+            Leaf::Bytes => "\"a\".bytes()",
+            Leaf::Chars => "\"a\".chars()",
         }
     }
     /// an expression whose type is this leaf without help from context
